@@ -149,12 +149,21 @@ func NativeReplay(p *Program, cases []ReplayCase, keepDir string) ([]ReplayResul
 		if err := os.WriteFile(ovPath, ob, 0644); err != nil {
 			return nil, err
 		}
-		runSh := fmt.Sprintf("#!/bin/sh\n# native replay of solver models against the real build\ncd %s && ND_CASES=%s GOFLAGS=-mod=mod GOPROXY=off go test -vet=off -count=1 -overlay %s -run 'TestZZReplay$' -v ./%s\n", p.RepoDir, casesPath, ovPath, rel)
+		binPath := filepath.Join(dir, "replay.test")
+		runSh := fmt.Sprintf("#!/bin/sh\n# native replay of solver models against the real build (the test binary is compiled with the harness overlay, then run)\ncd %s && GOFLAGS=-mod=mod GOPROXY=off go test -c -vet=off -overlay %s -o %s ./%s && ND_CASES=%s %s -test.run 'TestZZReplay$' -test.v\n", p.RepoDir, ovPath, binPath, rel, casesPath, binPath)
 		os.WriteFile(filepath.Join(dir, "run.sh"), []byte(runSh), 0755)
-		cmd := exec.Command("go", "test", "-vet=off", "-count=1", "-overlay", ovPath, "-run", "TestZZReplay$", "-v", "./"+rel)
-		cmd.Dir = p.RepoDir
-		cmd.Env = append(os.Environ(), "GOFLAGS=-mod=mod", "GOPROXY=off", "ND_CASES="+casesPath)
 		var outb bytes.Buffer
+		build := exec.Command("go", "test", "-c", "-vet=off", "-overlay", ovPath, "-o", binPath, "./"+rel)
+		build.Dir = p.RepoDir
+		build.Env = append(os.Environ(), "GOFLAGS=-mod=mod", "GOPROXY=off")
+		build.Stdout = &outb
+		build.Stderr = &outb
+		if err := build.Run(); err != nil {
+			return nil, fmt.Errorf("native replay: test binary does not build: %v\n%s", err, truncate(outb.String(), 2000))
+		}
+		cmd := exec.Command(binPath, "-test.run", "TestZZReplay$", "-test.v")
+		cmd.Dir = dir
+		cmd.Env = append(os.Environ(), "ND_CASES="+casesPath)
 		cmd.Stdout = &outb
 		cmd.Stderr = &outb
 		done := make(chan error, 1)
@@ -165,6 +174,7 @@ func NativeReplay(p *Program, cases []ReplayCase, keepDir string) ([]ReplayResul
 			cmd.Process.Kill()
 			return nil, fmt.Errorf("native replay timed out")
 		}
+		os.Remove(binPath)
 		seen := map[int]bool{}
 		sc := bufio.NewScanner(&outb)
 		sc.Buffer(make([]byte, 1<<20), 1<<26)
